@@ -28,12 +28,20 @@ def targets(jail):
 def cases(draw, tier="quick"):
     names = st.one_of(st.sampled_from(HOSTILE), st.tuples(st.sampled_from([b"evil", b"x", b"d", b"f", b"l"]), st.integers(0, 30)).map(lambda t: t[0] + b"%d" % t[1]),
                       st.binary(min_size=2, max_size=6), st.binary(min_size=2, max_size=6))
+    benign = draw(st.booleans())
+    counter = [0]
+    if benign:
+        # legal, unique names: the image unpacks, the danger is only in symlink targets, types, flags and the duplicates added below
+        names = st.sampled_from([b"evil", b"x", b"d", b"f", b"l", b"n"])
     tsel = st.integers(0, 12)
 
     def node(depth):
         t = draw(st.sampled_from(["file", "file", "dir", "dir", "slink", "slink", "slink", "chr", "fifo", "sock", "blk"]))
         n = dict(type=t, name=draw(names), mode=draw(st.sampled_from([0o644, 0o755, 0o777, 0o4755, 0o000])), uid=draw(st.sampled_from([0, 12345])),
                  gid=draw(st.sampled_from([0, 54321])), mtime=draw(st.sampled_from([0, 1000000000])))
+        if benign:
+            counter[0] += 1
+            n["name"] += b"_%d" % counter[0]
         if t == "file":
             n["data"] = draw(st.sampled_from([b"PWNED", b"", b"x" * 5000]))
             n["frag"] = True
@@ -44,12 +52,14 @@ def cases(draw, tier="quick"):
         elif t == "dir":
             n["children"] = [node(depth + 1) for _ in range(draw(st.integers(0, 3 if depth < 2 else 0)))]
             n["sort"] = draw(st.booleans())
-        if draw(st.integers(0, 4)) == 0 and t in ("file", "dir"):
-            n["xattrs"] = {b"user.pwn": b"1"}
+        if draw(st.sampled_from([False, False, False, True])):
+            n["xattrs"] = {b"user.pwn": b"1"}     # any type: extended symlink / device / ipc inodes too
+        elif draw(st.sampled_from([False, False, False, True])):
+            n["ext"] = True
         return n
     kids = [node(0) for _ in range(draw(st.integers(1, 6)))]
     # the classic: a symlink and a directory (or file) with the same name
-    if draw(st.integers(0, 2)) == 0:
+    if draw(st.sampled_from([False, False, False, True])):      # (integers(0, k) == 0 is far more frequent than 1/(k+1) inside composites)
         nm = draw(st.sampled_from([b"evil", b"d", b"x"]))
         second = draw(st.sampled_from(["dir", "file"]))
         pair = [dict(type="slink", name=nm, target_sel=draw(tsel), mode=0o777),
@@ -58,6 +68,21 @@ def cases(draw, tier="quick"):
         if draw(st.booleans()):
             pair.reverse()
         kids += pair
+    # two directories with the same name: the first plants a symlink, the second one descends through that name
+    if draw(st.sampled_from([False, False, False, False, True])):
+        nm = draw(st.sampled_from([b"evil", b"d", b"x"]))
+        inner = draw(st.sampled_from([b"x", b"lnk"]))
+        first = dict(type="dir", name=nm, mode=0o755, children=[dict(type="slink", name=inner, target_sel=draw(tsel), mode=0o777)])
+        second = dict(type="dir", name=nm, mode=0o755, children=[
+            dict(type="dir", name=inner, mode=0o755, children=[dict(type="file", name=b"pwn", data=b"PWNED", frag=True, mode=0o4755)])
+            if draw(st.booleans()) else dict(type="file", name=inner, data=b"PWNED", frag=True, mode=0o4755)])
+        pair = [first, second]
+        if draw(st.integers(0, 3)) == 0:
+            pair.reverse()
+        if draw(st.booleans()) and any(k["type"] == "dir" for k in kids):
+            next(k for k in kids if k["type"] == "dir")["children"] += pair     # one level down
+        else:
+            kids += pair
     root = dict(type="dir", name=b"", children=kids, sort=draw(st.booleans()), mode=0o755)
     flags = draw(st.lists(st.sampled_from(["-C", "-O", "-T", "-X", "-Z", "-q", "-D", "-S", "-F", "-L", "-E"]), unique=True, max_size=6))
     return dict(root=root, flags=flags, upath=draw(st.sampled_from([b"/", b"/", b"/", b"/d", b"/evil", b"/x"])),
